@@ -244,7 +244,7 @@ def run(ctx: Check, tree: Tree) -> None:
     ]
     ctx.not_decided += ["numerical invariance of the intensity under rotations", "Wigner rotations of the axis-angle alignment (matrix products of boosts)"]
     ctx.assumptions += ["qrules Topology API (get_edge_ids_*, edges) behaves as documented", "is_opposite_helicity_state is a total order on siblings (tuple comparison of attached final states)"]
-    check_prov(ctx, tree, [ANGLES], min_stores=4)
-    check_frame(ctx, tree)
-    check_normalised(ctx, tree)
-    check_convention(ctx, tree)
+    ctx.section(check_prov, ctx, tree, [ANGLES], min_stores=4)
+    ctx.section(check_frame, ctx, tree)
+    ctx.section(check_normalised, ctx, tree)
+    ctx.section(check_convention, ctx, tree)
